@@ -43,10 +43,10 @@ def random_request(rng, allow_fwd_in_conn=True):
     e2e = rng.sample(E2E, rng.randint(0, 4))
     hop = rng.sample(HOP, rng.randint(0, 2))
     connpool = e2e + (FWD + ["X-Forwarded-For"] if allow_fwd_in_conn else [])
-    conn = rng.sample(connpool, rng.randint(0, min(2, len(connpool)))) if rng.random() < 0.5 else []
+    conn = rng.sample(connpool, rng.randint(0, min(3, len(connpool)))) if rng.random() < 0.5 else []
     upstream = rng.sample(FWD + ["X-Forwarded-For"], rng.randint(0, 3)) if rng.random() < 0.5 else []
     return {"target": random_target(rng), "method": rng.choice(["GET", "GET", "DELETE", "OPTIONS"]),
-            "e2e": e2e, "hop": hop, "conn": conn, "upstream": upstream, "tls": rng.random() < 0.3,
+            "e2e": e2e, "hop": hop, "conn": conn, "connlines": rng.random() < 0.5, "upstream": upstream, "tls": rng.random() < 0.3,
             "hostport": rng.random() < 0.4, "passhost": rng.random() < 0.5, "peer": rng.choice(["v4", "v6", "v6zone"]),
             "mode": "ok", "resp": random_response(rng)}
 
@@ -54,7 +54,7 @@ def random_request(rng, allow_fwd_in_conn=True):
 def random_response(rng):
     return {"status": rng.choice([200, 200, 201, 203, 226, 299, 404, 418, 451, 499, 500, 503, 511, 599, 600, 799, 999]), "e2e": rng.sample(["X-Resp", "Content-Type", "Etag", "Set-Cookie"], rng.randint(0, 3)),
             "hop": rng.sample(["Keep-Alive", "Proxy-Authenticate", "Trailer"], rng.randint(0, 2)),
-            "conn": rng.sample(["X-Hop-Custom"], rng.randint(0, 1)),
+            "conn": rng.sample(["X-Hop-Custom", "X-Hop-Other", "x-hop-lower"], rng.randint(0, 3)), "connlines": rng.random() < 0.5,
             "size": rng.choice([0, 1, 100, 4096, 70000, 300000]), "chunked": rng.random() < 0.5, "chunk": rng.choice([1, 7, 1000, 65536]),
             "pause_ms": rng.choice([0, 0, 0, 5, 20])}
 
